@@ -23,6 +23,11 @@ def reduceDyn (s : Shape) (axes : List Int) (keepdims : Bool) : Option Shape :=
   if s.length = 0 then (if axes.all (fun a => a == 0 || a == -1) then some [] else none)
   else reduceOp s axes keepdims
 
+/-- Conversion of the INT64 reduction back to BOOL: `all` casts, `any` compares with 0 (fix a29f9e1: the
+`ReduceMax` of an empty set is INT64_MIN, which would cast to True). -/
+def boolOf (red x : String) : String :=
+  if red == "ReduceMax" then tOp "Greater" [x, "0"] else tOp "Cast" [x] [("to", "9")]
+
 namespace sum
 def model (s : Shape) : Option Shape := if s.length = 0 then some s else reduceOp s [] false
 def term (r : Nat) : String :=
@@ -76,37 +81,39 @@ namespace all_
 def model (s : Shape) : Option Shape := if s.length = 0 then some s else reduceOp s [] false
 def term (red : String) (r : Nat) : String :=
   if r = 0 then tOp "Cast" ["x0"] [("to", "9")]
-  else tOp "Cast" [tOp red [tOp "Cast" [tOp "Cast" ["x0"] [("to", "9")]] [("to", "7")]]
-      [("keepdims", "0"), ("noop_with_empty_axes", "0")]] [("to", "9")]
+  else boolOf red (tOp red [tOp "Cast" [tOp "Cast" ["x0"] [("to", "9")]] [("to", "7")]]
+      [("keepdims", "0"), ("noop_with_empty_axes", "0")])
 def spec (_ : Shape) : Option Shape := some []
 end all_
 
 namespace all_dim
 def model (s : Shape) (dim : Int) (keep : Bool) : Option Shape := reduceDyn s [dim] keep
 def termOn (red x : String) (dim : Int) (keep : Bool) : String :=
-  tOp "Cast" [tOp red [tOp "Cast" [tOp "Cast" [x] [("to", "9")]] [("to", "7")],
+  boolOf red (tOp red [tOp "Cast" [tOp "Cast" [x] [("to", "9")]] [("to", "7")],
       tOp "Reshape" [tI dim, "[-1]"] [("allowzero", "0")]]
-      [("keepdims", tB keep), ("noop_with_empty_axes", "0")]] [("to", "9")]
+      [("keepdims", tB keep), ("noop_with_empty_axes", "0")])
 def term (red : String) (dim : Int) (keep : Bool) : String := termOn red "x0" dim keep
 def spec (s : Shape) (dim : Int) (keep : Bool) : Option Shape := torchReduce s [dim] keep
 end all_dim
 
 namespace all_dims
-/-- `dims = none` is Python `None`; `if not dim` treats `None` and `[]` alike. -/
+/-- fix 1822ee3: `dim is None` reduces everything, an explicit empty list returns `Cast(self, BOOL)`. -/
 def model (s : Shape) (dims : Option (List Int)) (keep : Bool) : Option Shape :=
-  let ds := dims.getD []
-  if ds.isEmpty then (if s.length = 0 then some s else reduceOp s [] keep)
-  else
+  match dims with
+  | none => if s.length = 0 then some s else reduceOp s [] keep
+  | some [] => some s
+  | some ds =>
     match ds.foldlM (fun acc d => reduceDyn acc [d] true) s with
     | none => none
     | some r => if keep then some r else squeezeOp r ds
 def term (red : String) (r : Nat) (dims : Option (List Int)) (keep : Bool) : String :=
-  let ds := dims.getD []
-  if ds.isEmpty then
+  match dims with
+  | none =>
     (if r = 0 then tOp "Cast" ["x0"] [("to", "9")]
-     else tOp "Cast" [tOp red [tOp "Cast" [tOp "Cast" ["x0"] [("to", "9")]] [("to", "7")]]
-      [("keepdims", tB keep), ("noop_with_empty_axes", "0")]] [("to", "9")])
-  else
+     else boolOf red (tOp red [tOp "Cast" [tOp "Cast" ["x0"] [("to", "9")]] [("to", "7")]]
+      [("keepdims", tB keep), ("noop_with_empty_axes", "0")]))
+  | some [] => tOp "Cast" ["x0"] [("to", "9")]
+  | some ds =>
     let body := ds.foldl (fun acc d => all_dim.termOn red acc d true) "x0"
     if keep then body else tOp "Squeeze" [body, tInts ds]
 /-- `aten::all.dims(x, int[]? dim=None)`: `None` reduces everything; an explicit empty list reduces
@@ -128,7 +135,10 @@ def model (s : Shape) (dim : Option Int) (keep : Bool) : Option Shape :=
     | some flat =>
       match argOp flat 0 keep with
       | none => none
-      | some r => if s.length = 0 then some (squeezeAll r) else some r
+      | some r =>
+        if s.length = 0 then some (squeezeAll r)
+        else if keep then reshape false r (List.replicate s.length 1)   -- fix 3081284: [1] * rank
+        else some r
   | some d =>
     if s.length = 0 then
       match reshape false s [-1] with
@@ -139,7 +149,10 @@ def term (name : String) (r : Nat) (dim : Option Int) (keep : Bool) : String :=
   let flat := tOp "Reshape" ["x0", "[-1]"] [("allowzero", "0")]
   let arg (x : String) (a : Int) := tOp name [x] [("axis", tI a), ("keepdims", tB keep), ("select_last_index", "0")]
   match dim with
-  | none => if r = 0 then tOp "Squeeze" [arg flat 0] else arg flat 0
+  | none =>
+    if r = 0 then tOp "Squeeze" [arg flat 0]
+    else if keep then tOp "Reshape" [arg flat 0, tInts (List.replicate r 1)] [("allowzero", "0")]
+    else arg flat 0
   | some d => if r = 0 then tOp "Squeeze" [arg flat d] else arg "x0" d
 /-- `torch.argmax(x, dim=None, keepdim)`: no dim → the flattened index, shape `[]` (or all ones with
 keepdim); with dim → that axis reduced; an empty reduction is an error. -/
